@@ -41,6 +41,7 @@ fn batch_eq(a: &SkinBatch, b: &SkinBatch) -> bool {
 /// submesh: 48-byte record (wowdev.wiki M2SkinSection), write(parse(b)) == b
 #[kani::proof]
 #[kani::stub(std::fmt::format, vio::fmt_stub)]
+#[kani::stub(std::string::String::from_utf8_lossy, segio::lossy_stub)]
 #[kani::unwind(8)]
 fn c13c_submesh_record() {
     let mut b: [u8; 56] = kani::any();
@@ -59,6 +60,7 @@ fn c13c_submesh_record() {
 /// batch: 24-byte record, write(parse(b)) == b
 #[kani::proof]
 #[kani::stub(std::fmt::format, vio::fmt_stub)]
+#[kani::stub(std::string::String::from_utf8_lossy, segio::lossy_stub)]
 #[kani::unwind(8)]
 fn c13c_batch_record() {
     let b: [u8; 32] = kani::any();
@@ -76,6 +78,7 @@ fn c13c_batch_record() {
 /// witness (known finding skin-submesh-advance): the skin writer advances its offset by 40 per submesh, the record has 48 bytes
 #[kani::proof]
 #[kani::stub(std::fmt::format, vio::fmt_stub)]
+#[kani::stub(std::string::String::from_utf8_lossy, segio::lossy_stub)]
 #[kani::unwind(8)]
 fn c13c_submesh_advance_witness() {
     let s = any_submesh();
@@ -88,6 +91,7 @@ fn c13c_submesh_advance_witness() {
 /// header write -> parse for both layouts: calculate_size() == bytes written == bytes parsed, fields kept
 #[kani::proof]
 #[kani::stub(std::fmt::format, vio::fmt_stub)]
+#[kani::stub(std::string::String::from_utf8_lossy, segio::lossy_stub)]
 #[kani::unwind(8)]
 fn c13c_new_header_roundtrip() {
     // versions 0..3; version 4 with a center position: known finding skin-center-lost
@@ -122,6 +126,7 @@ fn c13c_new_header_roundtrip() {
 }
 #[kani::proof]
 #[kani::stub(std::fmt::format, vio::fmt_stub)]
+#[kani::stub(std::string::String::from_utf8_lossy, segio::lossy_stub)]
 #[kani::unwind(8)]
 fn c13c_old_header_roundtrip() {
     let mut h = OldSkinHeader::new();
@@ -148,6 +153,7 @@ fn c13c_old_header_roundtrip() {
 /// witness (known finding skin-center-lost): a BfA+ header (version 4 with center position) loses the center in write -> parse
 #[kani::proof]
 #[kani::stub(std::fmt::format, vio::fmt_stub)]
+#[kani::stub(std::string::String::from_utf8_lossy, segio::lossy_stub)]
 #[kani::unwind(8)]
 fn c13c_header_center_witness() {
     let mut h = SkinHeader::new(M2Version::BfA);
@@ -216,24 +222,29 @@ fn skin_roundtrip<H: SkinHeaderT + Clone>(header: H, s: usize, b: usize) {
 
 #[kani::proof]
 #[kani::stub(std::fmt::format, vio::fmt_stub)]
+#[kani::stub(std::string::String::from_utf8_lossy, segio::lossy_stub)]
 #[kani::unwind(90)]
 fn c13c_skin_new_1submesh() { skin_roundtrip(SkinHeader::new(M2Version::Cataclysm), 1, 0) }
 #[kani::proof]
 #[kani::stub(std::fmt::format, vio::fmt_stub)]
+#[kani::stub(std::string::String::from_utf8_lossy, segio::lossy_stub)]
 #[kani::unwind(90)]
 fn c13c_skin_new_1batch() { skin_roundtrip(SkinHeader::new(M2Version::MoP), 0, 1) }
 #[kani::proof]
 #[kani::stub(std::fmt::format, vio::fmt_stub)]
+#[kani::stub(std::string::String::from_utf8_lossy, segio::lossy_stub)]
 #[kani::unwind(90)]
 fn c13c_skin_old_1submesh() { let mut h = OldSkinHeader::new(); h.bone_count_max = kani::any(); skin_roundtrip(h, 1, 0) }
 #[kani::proof]
 #[kani::stub(std::fmt::format, vio::fmt_stub)]
+#[kani::stub(std::string::String::from_utf8_lossy, segio::lossy_stub)]
 #[kani::unwind(90)]
 fn c13c_skin_old_1batch() { let mut h = OldSkinHeader::new(); h.bone_count_max = kani::any(); skin_roundtrip(h, 0, 1) }
 
 /// witness (known finding skin-submesh-advance): one submesh and one batch, concrete contents
 #[kani::proof]
 #[kani::stub(std::fmt::format, vio::fmt_stub)]
+#[kani::stub(std::string::String::from_utf8_lossy, segio::lossy_stub)]
 #[kani::unwind(90)]
 fn c13c_skin_submesh_and_batch_witness() {
     let mut k = SkinG { header: SkinHeader::new(M2Version::Cataclysm), indices: Vec::new(), triangles: Vec::new(), bone_indices: Vec::new(),
@@ -256,6 +267,7 @@ fn c13c_skin_submesh_and_batch_witness() {
 /// the auto-detecting entry point reads an old-layout skin back as old layout (second word = index count > 4)
 #[kani::proof]
 #[kani::stub(std::fmt::format, vio::fmt_stub)]
+#[kani::stub(std::string::String::from_utf8_lossy, segio::lossy_stub)]
 #[kani::unwind(16)]
 fn c13c_parse_skin_autodetect_old() {
     let mut k = SkinG { header: OldSkinHeader::new(), indices: Vec::new(), triangles: Vec::new(), bone_indices: Vec::new(),
@@ -274,6 +286,7 @@ fn c13c_parse_skin_autodetect_old() {
 /// witness (known finding skin-autodetect-small): an old-layout skin with 4 indices (a quad) is taken for the new layout
 #[kani::proof]
 #[kani::stub(std::fmt::format, vio::fmt_stub)]
+#[kani::stub(std::string::String::from_utf8_lossy, segio::lossy_stub)]
 #[kani::unwind(16)]
 fn c13c_parse_skin_autodetect_small_witness() {
     let mut k = SkinG { header: OldSkinHeader::new(), indices: Vec::new(), triangles: Vec::new(), bone_indices: Vec::new(),
@@ -290,6 +303,7 @@ fn c13c_parse_skin_autodetect_small_witness() {
 
 #[kani::proof]
 #[kani::stub(std::fmt::format, vio::fmt_stub)]
+#[kani::stub(std::string::String::from_utf8_lossy, segio::lossy_stub)]
 #[kani::unwind(8)]
 fn c13c_skin_canary() {
     let b: [u8; 32] = kani::any();
